@@ -453,6 +453,21 @@ pub fn run(tier: &str, seed: u64) -> i32 {
         judge,
         |_, _| {},
     );
+    // case twins in both orders: which twin comes first must not matter (negation-free shapes only)
+    for (a, b, docs) in gen::twin_rules() {
+        // only shapes without negation in which the two twins stand symmetrically
+        let cond = a.lines().find(|l| l.starts_with("  condition:")).unwrap_or("");
+        if cond.contains("not") || cond.contains("all(") || cond.contains("of(") {
+            continue;
+        }
+        let mut c = Case::new("c17.permute");
+        c.rules = vec![a, b];
+        c.docs = docs;
+        c.extra = serde_json::json!({"mixed": true, "variants": 1, "negation_free": true});
+        let out = judge(&c);
+        report.label("case_twins_swapped");
+        report.record(&c, out);
+    }
     // wide sequences (hundreds of mappings: matrix rows, column keys beyond one byte): the order of
     // the mappings is reversed, rotated and shuffled
     gen::drive(
